@@ -535,6 +535,23 @@ func c17Work(ctx *core.Ctx, part string) {
 			}
 			seed := hr.Int63()
 			pB, vops := build(v, seed)
+			if h == 0 {
+				// the same history with the policy put to use half-way: whatever it learned about the probes
+				// then (names it did not know, verdicts) must not outlive the calls that follow
+				var pU *bluemonday.Policy
+				for k, o := range vops {
+					pU = spec.Apply(pU, o, nil)
+					if k == len(vops)/2 && !v.casing {
+						for _, p := range probes {
+							pU.Sanitize(p)
+						}
+					}
+				}
+				if !v.casing {
+					pB = pU
+					lc["histories_with_use_before_extension"]++
+				}
+			}
 			lc["histories_compared"]++
 			lc["variation:"+v.String()]++
 			for i, p := range probes {
